@@ -18,6 +18,14 @@ claimed = {
    technique="explicit-state BFS over page-setting histories of the real Document in lock-step with a settings record",
    text="Every history of <= d page-setting calls over 54 operations (all standard sizes, custom sizes at the range bounds and around the 1 mm recognition window, both orientations and an invalid one, margins/distances/gutter incl. negative, all doc-grid types, clear, full records, reopen) is executed; after each call GetPageSettings is compared with the record within one twip, w:pgSz with the record's physical size, and rejected calls must change nothing; distinct states are saved and re-read. Exhaustive within depth (quick 3, thorough 5).",
    note="Argument values outside the listed domains and unknown size names are not covered."),
+ "C11": dict(engine="seqx", cat="model_checking", ref="§4 C11, A.4",
+   technique="explicit-state BFS over header/footer call histories of the real Document against a map kind -> latest definition, judged on the saved package",
+   text="Every history of <= d calls over the six header/footer calls x three kinds (distinct texts/formats/page-number flags) interleaved with page margins, title page, image, list, paragraph, reopen and render-as-template is executed; every distinct state is saved and the independent reader checks: at most one reference per kind, exactly one for each defined kind, resolving to a part with the latest call's text, formatting, alignment and PAGE field and no earlier call's text. Exhaustive within depth (quick 3, thorough 4).",
+   note="Only one reopen and one render per history; unknown kinds are outside the alphabet."),
+ "C02": dict(engine="seqx+foreign", cat="model_checking", ref="§4 C02",
+   technique="explicit-state BFS over relationship-creating histories from fresh and opened foreign packages with all injective id assignments, relationship-graph invariant on every saved state",
+   text="Seeds: a fresh document and every foreign package whose styles/image/header/numbering relationships carry every injective assignment of ids from {rId1,rId2,rId3,rId4,rId7,x1} (97 seeds quick, 1172 thorough); from each, every history of 2 operations over 17 relationship-creating calls (images in body/cell/template placeholder, headers/footers of all kinds, list, notes, settings, properties, render, reopen); every distinct state is saved and the independent reader checks id uniqueness, target presence, owner, and resolution of every r:id / r:embed to a relationship of the matching kind.",
+   note="Histories of more than 2 operations after the seed and id pools beyond the six listed ids are not covered."),
 }
 
 not_yet = {}
